@@ -473,7 +473,15 @@ func instrumentFile(p *packages.Package, f *ast.File, name string) bool {
 	}
 	astutil.Apply(f, nil, post)
 	if usesRt {
-		astutil.AddNamedImport(p.Fset, f, "simrt", rtPath)
+		have := false
+		for _, imp := range f.Imports {
+			if imp.Path.Value == strconv.Quote(rtPath) && (imp.Name == nil || imp.Name.Name == "simrt") {
+				have = true
+			}
+		}
+		if !have {
+			astutil.AddNamedImport(p.Fset, f, "simrt", rtPath)
+		}
 		changed = true
 	}
 	return changed
